@@ -44,7 +44,12 @@ Section Generic.
   Proof. exact (buffer_last d0 sd user cur Hadm). Qed.
 
   (* the plan does not depend on the NCP's answers to earlier writes: every default the user left
-     alone is written unless it is grow-only and already large enough *)
+     alone is written unless it is grow-only and already large enough.
+     The hypothesis [assoc (e_id e) sd = None] is necessary (and, with the others, sufficient): a
+     schema default replaces the table value, e.g.
+       Eval vm_compute in config_writes
+         (merged_gen [{| e_id := 30; e_val := 4; e_min := true |}] [(30, 12)] []) [].   = [(30, 12)]
+     so (30, 4) is not written (EZSP v7: CONFIG_KEY_TABLE_SIZE table value 4, schema default 12). *)
   Theorem c16_defaults_written : forall e, In e d0 -> user_has (e_id e) user = false ->
     assoc (e_id e) sd = None ->
     (e_min e = false \/ assoc (e_id e) cur = None \/ assoc (e_id e) cur = Some None
@@ -77,8 +82,13 @@ Proof. exact buffer_in_defaults. Qed.
 
 (* non-vacuity: EZSP v7, no overrides, NCP reports a key table of 250: the schema default 12 is not
    written; a user override of a non-default setting lands before the buffer count *)
+(* CORRECTED: the expected list first had 54 (CONFIG_TRANSIENT_KEY_TIMEOUT_S) in third position; the
+   v8 table has CONFIG_TC_REJOINS_USING_WELL_KNOWN_KEY_TIMEOUT_S = 56 there:
+     Eval vm_compute in map fst (config_writes (merged 8 [(3, Some 100)]) []).
+       = [26; 19; 56; 18; 12; 45; 6; 25; 13; 5; 34; 30; 17; 42; 3; 1]
+   (a typo in the expected value of the example, not a defect of the model or of /repo). *)
 Example c16_example :
   ~ In 30 (map fst (config_writes (merged 7 []) [(30, Some 250)]))
   /\ map fst (config_writes (merged 8 [(3, Some 100)]) []) =
-       [26; 19; 54; 18; 12; 45; 6; 25; 13; 5; 34; 30; 17; 42; 3; 1].
+       [26; 19; 56; 18; 12; 45; 6; 25; 13; 5; 34; 30; 17; 42; 3; 1].
 Proof. vm_compute. split; [intros H; repeat (destruct H as [H|H]; [discriminate|]); exact H | reflexivity]. Qed.
